@@ -86,7 +86,7 @@ func runFOp(w *world.World, t *mast.Mast, op fOp, aux *mast.Mast) (world.Res, st
 				obs = cc.String()
 			}
 			return err
-		case "CursorMin", "CursorMax", "CursorCeil", "CursorMinFwd", "CursorMaxBack":
+		case "CursorMin", "CursorMax", "CursorCeil", "CursorMinFwd", "CursorMaxBack", "CursorCeilFwd", "CursorCeilBack":
 			// a navigation sequence is a list of steps on one cursor; lastCursorRun remembers where
 			// it stopped so that the failing step can be retried on the very same cursor
 			cr := &cursorRun{}
@@ -112,6 +112,11 @@ func runFOp(w *world.World, t *mast.Mast, op fOp, aux *mast.Mast) (world.Res, st
 				for i := 0; i <= op.k; i++ {
 					cr.steps = append(cr.steps, func() error { return cur.Backward(ctx) })
 				}
+			case "CursorCeilFwd":
+				// a cursor placed by Ceil sits on a short path (possibly at an inner node): stepping from there
+				cr.steps = []func() error{func() error { return cur.Ceil(ctx, cfg.Key(op.k)) }, func() error { return cur.Forward(ctx) }, func() error { return cur.Forward(ctx) }}
+			case "CursorCeilBack":
+				cr.steps = []func() error{func() error { return cur.Ceil(ctx, cfg.Key(op.k)) }, func() error { return cur.Backward(ctx) }, func() error { return cur.Backward(ctx) }}
 			}
 			lastCursorRun.Store(w, cr)
 			err = cr.resume()
@@ -163,7 +168,7 @@ func fOps(cfg *world.Config) []fOp {
 			ops = append(ops, fOp{name: "Insert", k: k, v: v})
 			ops = append(ops, fOp{name: "Delete", k: k, v: v})
 		}
-		ops = append(ops, fOp{name: "Get", k: k}, fOp{name: "SeekIter", k: k}, fOp{name: "CursorCeil", k: k})
+		ops = append(ops, fOp{name: "Get", k: k}, fOp{name: "SeekIter", k: k}, fOp{name: "CursorCeil", k: k}, fOp{name: "CursorCeilFwd", k: k}, fOp{name: "CursorCeilBack", k: k})
 	}
 	for i := 0; i < len(cfg.Keys); i++ {
 		ops = append(ops, fOp{name: "CursorMinFwd", k: i}, fOp{name: "CursorMaxBack", k: i})
